@@ -147,8 +147,8 @@ def flatten(ctx):
     E = "elem(%s)" % REG
     REC = ANY
     RD = "HashMap::get(P0.recursive_type_derives,HashMap::get(PATHS,%s.id)@v1::Some.0)" % E
-    exp = ("if(let v1::Some($)=HashMap::get(PATHS,%s.id)){if(let v1::Some($)=%s){"
-           "{derives::collect_type_ids(%s.id,P%d,IDS);for(IDS){Derives::extend_from(Entry::or_default(HashMap::entry(ADD,elem(IDS))),%s@v1::Some.0)}}}else{'()'}}else{'()'}") % (E, RD, E, i_reg, RD)
+    exp = ("if((let v1::Some($)=HashMap::get(PATHS,%s.id)&&let v1::Some($)=%s)){"
+           "{derives::collect_type_ids(%s.id,P%d,IDS);for(IDS){Derives::extend_from(Entry::or_default(HashMap::entry(ADD,elem(IDS))),%s@v1::Some.0)}}}else{'()'}") % (E, RD, E, i_reg, RD)
     for lid, sym in syms.items():
         if sym == "IDS":
             it = N.local_term(lid)
